@@ -15,12 +15,31 @@ def run_one(name, patch, props):
         if p.returncode != 0:
             return name, "skipped (patch does not apply to the current tree)", {}
         out = {}
-        for prop in props:
-            r = subprocess.run([os.environ.get("WSVERIF_BIN", os.path.join(ROOT, "bin/wsverif")), "-repo", d, "-verif", ROOT, "-no-evidence", "-prop", prop],
-                               env=ENV, capture_output=True, text=True)
-            rules = sorted(set(l.split("rule=")[1].split()[0] for l in r.stdout.splitlines() if "rule=" in l))
-            rules = [x for x in rules if not x.endswith(".registered")]
-            out[prop] = rules
+        binp = os.environ.get("WSVERIF_BIN", os.path.join(ROOT, "bin/wsverif"))
+        if len(props) >= 20:
+            # one process for all properties (the program is loaded once); rules are attributed by their prefix
+            r = subprocess.run([binp, "-repo", d, "-verif", ROOT, "-no-evidence", "-prop", "all"], env=ENV, capture_output=True, text=True)
+            for prop in props:
+                out[prop] = []
+            for l in r.stdout.splitlines():
+                if "rule=" in l:
+                    rule = l.split("rule=")[1].split()[0]
+                    if rule.endswith(".registered"):
+                        continue
+                    pr = rule.split(".")[0]
+                    if pr in out and rule not in out[pr]:
+                        out[pr].append(rule)
+            for prop in props:
+                out[prop].sort()
+            if r.returncode not in (0, 1):
+                out[props[0]].append("CHECKER-CRASH")
+        else:
+            for prop in props:
+                r = subprocess.run([binp, "-repo", d, "-verif", ROOT, "-no-evidence", "-prop", prop],
+                                   env=ENV, capture_output=True, text=True)
+                rules = sorted(set(l.split("rule=")[1].split()[0] for l in r.stdout.splitlines() if "rule=" in l))
+                rules = [x for x in rules if not x.endswith(".registered")]
+                out[prop] = rules
         return name, "ran", out
     finally:
         shutil.rmtree(d, ignore_errors=True)
